@@ -153,7 +153,9 @@ impl Scenario for BlockLockstep {
         // around the byte and signed-byte limits, so that run-length or accumulated-displacement shortcuts in the translator show
         let run_len: Option<usize> = if index % 53 == 52 { Some(rng.pick(&[2usize, 3, 126, 127, 128, 129, 130, 254, 255, 256, 257, 300, 511, 512, 513, 1000])) } else { None };
         let cart_type = rng.pick(&[0x00u8, 0x01, 0x03, 0x11, 0x13, 0x01, 0x13]);
-        let rom_code: u8 = if cart_type == 0 { 0 } else { rng.pick(&[1u8, 2, 3]) };
+        // 1 in 12 banked cartridges is large (64 / 128 banks): on MBC1 the bank number then needs the upper-bits register too;
+        // one in four of the others is a 32 KiB image behind a controller (two banks: every even value maps bank 0 into the window)
+        let rom_code: u8 = if cart_type == 0 { 0 } else if rng.chance(1, 12) { rng.pick(&[5u8, 6]) } else { rng.pick(&[1u8, 2, 3, 0]) };
         case.set("cart_type", cart_type as i64);
         case.set("rom_code", rom_code as i64);
         case.set("ram_code", 3);
@@ -167,8 +169,11 @@ impl Scenario for BlockLockstep {
         let high = rng.chance(1, 2);
         // 1 in 16 switchable-window blocks run with bank 0 mapped there: the register is written with the cartridge's bank
         // count, a non-zero value that wraps to bank 0 (the block's bytes then live in the first 16 KiB of the image)
-        let wrap_to_zero = high && cart_type != 0 && rng.chance(1, 16);
-        let bank = if cart_type == 0 { 1 } else if wrap_to_zero { 0 } else { 1 + rng.below(banks as u64 - 1) as usize };
+        let wrap_to_zero = high && cart_type != 0 && rng.chance(1, 16) && banks <= 16;
+        let mut bank = if cart_type == 0 { 1 } else if wrap_to_zero { 0 } else { 1 + rng.below(banks as u64 - 1) as usize };
+        if cart_type <= 3 && bank & 0x1f == 0 && !wrap_to_zero {
+            bank += 1; // MBC1 cannot select 0x20 / 0x40 / 0x60
+        }
         // block body
         let avoid_rom_regs = high && !rng.chance(1, 5);
         let max_body = if thorough { rng.pick(&[0u64, 1, 3, 8, 24, 60, 200]) } else { rng.pick(&[0u64, 1, 2, 4, 8, 24]) };
@@ -239,7 +244,9 @@ impl Scenario for BlockLockstep {
         if cart_type != 0 {
             let b = if wrap_to_zero { banks } else if high { bank } else { rng.below(banks as u64) as usize };
             case.push("w", &[0x2000 + rng.below(0x2000) as i64, b as i64]);
-            if cart_type <= 3 && rng.chance(1, 4) {
+            if cart_type <= 3 && banks > 32 {
+                case.push("w", &[0x4000 + rng.below(0x2000) as i64, (b >> 5) as i64]);
+            } else if cart_type <= 3 && rng.chance(1, 4) {
                 case.push("w", &[0x6000, 1]);
                 case.push("w", &[0x4000, rng.below(4) as i64]);
             }
@@ -488,6 +495,9 @@ impl Scenario for BlockLockstep {
                     }
                     if mode == 0 {
                         ctx.cov.hit("probe.calls_with_canaries_in_callee_saved_registers");
+                    }
+                    if case.get("rom_code") >= 5 {
+                        ctx.cov.hit("probe.executions_on_64_or_128_bank_cartridges");
                     }
                     i.trace_start();
                     let ei = exec(i, mode, false);
